@@ -171,6 +171,13 @@ func (a *atk) wdog(key string) time.Duration {
 	return wd(key)
 }
 
+func (a *atk) sshSuffix() string {
+	if a.si.SSHLogins.Load() > 0 {
+		return "-after-ssh-gateway-login"
+	}
+	return ""
+}
+
 func (a *atk) vio(key, format string, args ...any) {
 	a.c.Violation(key, "[%s/%s] "+format, append([]any{a.si.Name, a.tr}, args...)...)
 }
@@ -196,7 +203,7 @@ func (a *atk) afterRefusal(conn net.Conn, what string) {
 }
 
 // judgeLoginReply reads the reply to a login that carried no valid key.
-func (a *atk) judgeLoginReply(conn net.Conn, desc string, specClaimed bool) {
+func (a *atk) judgeLoginReply(conn net.Conn, desc string, specClaimed bool, sentKey string, ts int64) {
 	key := "refused-login-connection-not-closed"
 	_ = conn.SetReadDeadline(time.Now().Add(a.wdog(key)))
 	var resp msg.LoginResp
@@ -208,12 +215,19 @@ func (a *atk) judgeLoginReply(conn net.Conn, desc string, specClaimed bool) {
 		if specClaimed {
 			k = "login-accepted-without-valid-key-client-spec-claimed"
 		}
+		if a.si.SSHLogins.Load() > 0 {
+			k = "login-accepted-without-valid-key-after-ssh-gateway-login"
+			desc += fmt.Sprintf(" — after %d legitimate logins through this server's ssh gateway", a.si.SSHLogins.Load())
+		}
 		a.vio(k, "LoginResp without error (run id %q) for %s", resp.RunID, desc)
 		run.Count("bad_logins_ACCEPTED", 1)
 		conn.Close()
 		return
 	case err == nil:
 		run.Count("bad_logins_refused_with_reply", 1)
+		if !a.flipMux {
+			defer a.learn("login", resp.Error, ts, "", sentKey)
+		}
 	case a.flipMux:
 		conn.Close()
 		return
@@ -253,7 +267,7 @@ func (a *atk) badLogin() {
 		return
 	}
 	run.Count("bad_logins", 1)
-	a.judgeLoginReply(conn, desc, lm.ClientSpec.AlwaysAuthPass || lm.ClientSpec.Type != "")
+	a.judgeLoginReply(conn, desc, lm.ClientSpec.AlwaysAuthPass || lm.ClientSpec.Type != "", key, ts)
 	switch idKind {
 	case "claimed":
 		a.workConnExpectRefused(&msg.NewWorkConn{RunID: lm.RunID}, "run id claimed by a refused login", false)
@@ -309,7 +323,7 @@ func (a *atk) rawLogin() {
 		{"nested-login", fmt.Sprintf(`{"login":{"privilege_key":%s},"client_spec":{"always_auth_pass":true},"run_id":%s}`, q(key), q(a.victim.P.RunID))},
 	}
 	b := bodies[rng.Intn(len(bodies))]
-	for a.shortFrameIsSlow(9+len(b.body)) {
+	for a.shortFrameIsSlow(9 + len(b.body)) {
 		b = bodies[rng.Intn(len(bodies))]
 	}
 	a.c.Ev("raw-login", "kind", b.kind, "body", clip(b.body))
@@ -319,7 +333,7 @@ func (a *atk) rawLogin() {
 		return
 	}
 	run.Count("raw_logins", 1)
-	a.judgeLoginReply(conn, "raw Login body kind="+b.kind+" body="+clip(b.body), true)
+	a.judgeLoginReply(conn, "raw Login body kind="+b.kind+" body="+clip(b.body), true, key, ts)
 	if b.kind == "nested-login" {
 		a.checkNotDisturbed(a.victim, "victim", "raw login "+b.kind)
 	}
@@ -450,11 +464,14 @@ func (a *atk) workConnExpectRefused(m *msg.NewWorkConn, why string, knownSession
 	err := msg.ReadMsgInto(conn, &st)
 	switch {
 	case err == nil && st.Error == "":
-		a.vio("workconn-started-without-valid-key", "work connection (%s; run id %q key %q ts %d) received StartWorkConn{proxy %q} without error: it was pooled and handed a user connection", why, m.RunID, clip(m.PrivilegeKey), m.Timestamp, st.ProxyName)
+		a.vio("workconn-started-without-valid-key"+a.sshSuffix(), "work connection (%s; run id %q key %q ts %d) received StartWorkConn{proxy %q} without error: it was pooled and handed a user connection", why, m.RunID, clip(m.PrivilegeKey), m.Timestamp, st.ProxyName)
 		conn.Close()
 		return
 	case err == nil:
 		run.Count("bad_workconns_error_reply", 1)
+		if !a.flipMux {
+			defer a.learn("workconn", st.Error, m.Timestamp, m.RunID, m.PrivilegeKey)
+		}
 	case a.flipMux:
 		conn.Close()
 		return
@@ -466,7 +483,7 @@ func (a *atk) workConnExpectRefused(m *msg.NewWorkConn, why string, knownSession
 		}
 		k := key
 		if knownSession && a.victim.Pooled.Load() > a.victim.SentWork.Load() {
-			k = "workconn-pooled-without-valid-key"
+			k = "workconn-pooled-without-valid-key" + a.sshSuffix()
 		}
 		a.vio(k, "work connection (%s; run id %q key %q ts %d) was neither refused nor closed within the watchdog%s", why, m.RunID, clip(m.PrivilegeKey), m.Timestamp, pooled)
 		conn.Close()
@@ -595,7 +612,13 @@ func (a *atk) ping() {
 		a.sig = append(a.sig, "P:bad:"+kind)
 		run.Count("bad_pings", 1)
 		if pong.Error == "" {
-			a.vio("invalid-heartbeat-acknowledged", "HeartBeats scope on: Ping{key kind %s, key %q, ts %d} was answered with Pong without error", kind, clip(key), ts)
+			k := "invalid-heartbeat-acknowledged"
+			if a.si.SSHLogins.Load() > 0 {
+				k += "-after-ssh-gateway-login"
+			}
+			a.vio(k, "HeartBeats scope on: Ping{key kind %s, key %q, ts %d} was answered with Pong without error", kind, clip(key), ts)
+		} else {
+			a.learn("heartbeat", pong.Error, ts, "", key)
 		}
 	} else {
 		a.sig = append(a.sig, "P:noscope")
@@ -699,7 +722,7 @@ func (a *atk) ledger() {
 			if s.RunID == vid {
 				mine = s.Proxies
 				if sent := v.SentWork.Load(); int64(s.PoolLen) > sent {
-					a.vio("workconn-pooled-without-valid-key", "%s: pool of session %s holds %d connections but only %d work connections with a valid key were ever sent", phase, vid, s.PoolLen, sent)
+					a.vio("workconn-pooled-without-valid-key"+a.sshSuffix(), "%s: pool of session %s holds %d connections but only %d work connections with a valid key were ever sent", phase, vid, s.PoolLen, sent)
 				}
 			}
 		}
@@ -733,7 +756,7 @@ func (a *atk) ledger() {
 	// 2. pool ledger through the hook: connections that passed verification for the victim == valid ones sent
 	okPool := h.Eventually(15*time.Second, func() bool { return v.Pooled.Load() >= v.SentWork.Load() })
 	if p, s := v.Pooled.Load(), v.SentWork.Load(); p > s {
-		a.vio("workconn-pooled-without-valid-key", "%d work connections passed verification for session %s but only %d carried a valid key", p, vid, s)
+		a.vio("workconn-pooled-without-valid-key"+a.sshSuffix(), "%d work connections passed verification for session %s but only %d carried a valid key", p, vid, s)
 	} else if !okPool {
 		run.Inconclusive("valid work connections not registered within 15 s")
 	} else {
